@@ -221,3 +221,58 @@ func init() {
 		Rule: "one state per completed symbolic path of the step harness",
 	}
 }
+
+var c12Skels = []string{
+	// free text
+	"?", "??", "@", "@@",
+	// directives with holes
+	"set ?", "set ??", "set  ?", "set ? ?", "set ?? ?", "set keymap ?", "set editing-mode ?", "set bell-style ??",
+	"set history-size ?", "set history-size ??", "set convert-meta ?",
+	"$?", "$if ?", "$if ??", "$if mode=?", "$if term=?", "$else?", "$endif?", "$include ?", "$include ~/?", "$?? ?",
+	"$if mode=?\n$else\n\"a\": x\n$endif", "$endif\n$else\n?", "$if ?\n$if ?\n$endif",
+	"\"?", "\"?\"", "\"?\":", "\"?\": ?", "\"??\": ?", "\"\\?\": x", "\"\\??\": x", "\"\\C-?\": x", "\"\\M-?\": x", "\"\\M-\\C-?\": x",
+	"\"\\x?\": x", "\"\\x??\": x", "\"\\?\\?\": x", "\"a\": \"?", "\"a\": \"?\"", "\"a\": \"\\?\"", "\"a\":?", "\"a\": ??",
+	"'?': ?", "?: x", "??: x", "?-?: x", "C-?: x", "M-?: x", "Control-?: ?", "Meta-Control-?: x", "?-?-?: x", "C-M-?", "DEL?: x",
+	"?\n?", "?\r\n?", "#?", " ?", "\t?",
+}
+
+func init() {
+	checks["C12"] = &CheckDef{
+		ID: "C12",
+		Jobs: func(tier string, p *Program) []*Job {
+			var jobs []*Job
+			skels := c12Skels
+			if tier == "thorough" {
+				skels = append(append([]string{}, skels...), "???", "@@@", "set ???", "\"???\": ??", "\"\\???\": x", "$if ???", "???: ?", "?-??: ?", "\"\\C-\\M-??\": ?",
+					"\"a\": \"???\"", "set ?? ??")
+			}
+			for _, sk := range skels {
+				for _, h := range []string{"config", "default"} {
+					setup := ""
+					if h == "default" {
+						setup = "/inputrc.ZZSetup_DefaultConfig"
+					}
+					j := mkJob("/inputrc.ZZ_C12_Parse", setup, "skel", sk, "inc", "none", "handler", h)
+					j.Reach = []string{"parse"}
+					jobs = append(jobs, j)
+				}
+			}
+			for _, inc := range []string{"self", "mutual", "missing"} {
+				for _, sk := range []string{"$include a\n", "$include b\n", "$include ?\n", "$if ?\n$include a\n$endif\n"} {
+					j := mkJob("/inputrc.ZZ_C12_Parse", "", "skel", sk, "inc", inc, "handler", "config")
+					j.Reach = []string{"parse"}
+					jobs = append(jobs, j)
+				}
+			}
+			return jobs
+		},
+		Assumptions: []string{
+			"holes '?' range over all Unicode scalar values, '@' over all byte values (invalid UTF-8 included); the surrounding skeleton text is concrete",
+			"include graphs are served by the handler's ReadFile: none / a file that includes itself / two files including each other / missing file",
+			"parser options strict and halt-on-error are symbolic booleans",
+		},
+		Stubs:  []string{"bufio.Scanner, bytes.Reader interpreted from their SSA", "os/user.Current stub (home /nonexistent)", "unicode.* exact range formulas"},
+		Bounds: map[string]string{"quick": "directive skeletons with up to 3 symbolic holes, free text up to 3 runes/bytes; recursion depth budget 400 frames", "thorough": "up to 5 holes"},
+		Rule:   "one state per completed symbolic path of ParseBytes",
+	}
+}
